@@ -94,6 +94,7 @@ def main():
     known_hits = {}
     harness_errors = []
     os.makedirs(os.path.join(HERE, 'evidence', 'replays'), exist_ok=True)
+    pending_weak = []
     for res in results:
         st = res['status']
         counts[st] = counts.get(st, 0) + 1
@@ -123,31 +124,43 @@ def main():
         res['replay_detail'] = detail
         cover = [f for f in known if finding_covers(f, prop, res['spec'], res['params'], res['model'])]
         if cover and cover[0].get('weak_rerun'):
-            # the finding excuses only its own behaviour: re-run the obligation with the oracle weakened to exactly the recorded
-            # defect; anything else that is wrong in the same region is still a violation
-            from vlib.runner import run_one
-            r2 = run_one(res['spec'], dict(res['params'], _known=cover[0]['id']))
-            if r2['status'] == 'violated':
-                try:
-                    ok2, detail2 = resolve(res['spec'] + '_concrete')(r2['params'], r2['model'])
-                except Exception as e:
-                    ok2, detail2 = None, repr(e)
-                if ok2 is False:
-                    res = r2
-                    res['replay_detail'] = detail = detail2
-                    cover = []
-            elif r2['status'] != 'proved':
-                res['weak_rerun'] = r2['status']
+            pending_weak.append((res, cover[0]))
+            continue
         if cover:
             known_hits.setdefault(cover[0]['id'], []).append(res)
             counts['violated'] -= 1
             counts['known'] = counts.get('known', 0) + 1
             res['status'] = 'known'
             continue
-        name = '%s_%s_%d.json' % (prop, res['spec'].split(':')[1], len(violations))
+        violations.append(res)
+    if pending_weak:
+        # a finding excuses only its own behaviour: the obligations are re-run (in the pool, with deadlines) with the oracle weakened
+        # to exactly the recorded defect; anything else that is wrong in the same region is still a violation
+        weak = run_all([(r['spec'], dict(r['params'], _known=f['id'])) for r, f in pending_weak], nworkers=a.workers,
+                       ob_deadline_s=budget.get('ob_deadline_s', 150), total_deadline_s=budget.get('total_s', 170))
+        for (res, f), r2 in zip(pending_weak, weak):
+            if r2['status'] == 'violated':
+                try:
+                    ok2, detail2 = resolve(res['spec'] + '_concrete')(r2['params'], r2['model'])
+                except Exception as e:
+                    ok2, detail2 = None, repr(e)
+                if ok2 is False:
+                    r2['replay_detail'] = detail2
+                    violations.append(r2)
+                    continue
+            elif r2['status'] != 'proved':
+                res['weak_rerun'] = r2['status']
+            known_hits.setdefault(f['id'], []).append(res)
+            counts['violated'] -= 1
+            counts['known'] = counts.get('known', 0) + 1
+            res['status'] = 'known'
+    vio2 = []
+    for i, res in enumerate(violations):
+        name = '%s_%s_%d.json' % (prop, res['spec'].split(':')[1], i)
         path = os.path.join(HERE, 'evidence', 'replays', name)
-        json.dump(dict(property=prop, spec=res['spec'], params=res['params'], model=res['model'], detail=detail), open(path, 'w'), indent=1)
-        violations.append((res, path))
+        json.dump(dict(property=prop, spec=res['spec'], params=res['params'], model=res['model'], detail=res['replay_detail']), open(path, 'w'), indent=1)
+        vio2.append((res, path))
+    violations = vio2
     # a listed finding is reported when its recorded witness still fails on the real code
     # or an obligation hit the region it covers; a finding whose witness passes prints nothing
     for f in known:
